@@ -7,6 +7,8 @@ mod cmd_table;
 mod cmd_pow;
 mod cmd_queries;
 mod cmd_config;
+mod cmd_fri;
+mod friprov;
 mod merkle;
 mod hashes;
 mod terms;
@@ -27,6 +29,9 @@ fn main() {
         "pow" => cmd_pow::run(rest),
         "queries" => cmd_queries::run(rest),
         "config" => cmd_config::run(rest),
+        "fri" => cmd_fri::run(rest),
+        "fri-random" => cmd_fri::run_random(rest),
+        "fri-highdeg" => cmd_fri::run_highdeg(rest),
         "build-info" => {
             println!("{}", build_info());
         }
